@@ -85,6 +85,8 @@ struct Case {
     kind: Kind,
     /// info.protocol forced to this value (None: the generator's choice point)
     protocol: Option<u8>,
+    /// arrival order of the datagrams of a split answer (Transport::delivery)
+    delivery: u8,
 }
 
 /// Framing recipe (cut offsets depend on the payload, so they are symbolic here).
@@ -177,6 +179,7 @@ fn base(engine: EngineCfg, bound: usize) -> Case {
         bound,
         kind: Kind::Protocol,
         protocol: None,
+        delivery: 0,
     }
 }
 
@@ -263,6 +266,17 @@ fn build_cases(tier: Tier) -> Vec<Case> {
             c.framing = [fr.clone(), fr.clone(), fr.clone()];
             c.label = format!("C {e:?} all={}", fr.tag());
             v.push(c);
+            // "across several" datagrams promises no arrival order: the same answer delivered back to front and with
+            // fragment 0 last decodes to the same state (the arrival orders themselves are C08's subject)
+            for (d, what) in [(1u8, "reversed"), (2, "fragment 0 last")] {
+                let mut c = base(e, 0);
+                c.framing = [fr.clone(), fr.clone(), fr.clone()];
+                c.delivery = d;
+                c.player_counts = vec![2, 255];
+                c.rule_counts = vec![2, 300];
+                c.label = format!("C {e:?} all={} delivered {what}", fr.tag());
+                v.push(c);
+            }
             // Counter-Strike: Source servers speaking protocol 7 send split packets without the size field
             if e == EngineCfg::Css240 {
                 for which in 1 .. 3 {
@@ -380,7 +394,8 @@ impl Prop for C02 {
         "case = (engine setting, EDF flag set, type bytes, framing of info/players/rules, challenge rounds, entry point); \
          within a case every server state reachable from the default state by <= bound field deviations over the boundary \
          alphabets is generated (state fields are recorded choice points), the real valve::query / games::<g>::query is run \
-         against the reference server through the virtual network (in-order, loss-free), and the result must equal the state. \
+         against the reference server through the virtual network (loss-free; in order, and for the split framings also back to \
+         front and with fragment 0 last), and the result must equal the state. \
          distinct_nontrivial = distinct (outcome class, wire-log shape) pairs of executions that received at least one datagram"
             .into()
     }
@@ -461,6 +476,7 @@ impl Prop for C02 {
                     rules: auto(&case.framing[2], lens[2]).resolve(lens[2], !no_size, 0x7fff_ffff),
                     rounds: case.rounds,
                     obsolete_info: obsolete,
+                    delivery: case.delivery,
                     ..Default::default()
                 };
                 let server = ValveServer::new(state.clone(), transport);
